@@ -306,3 +306,41 @@ Proof.
   split; [vm_compute; reflexivity|]. split; [vm_compute; reflexivity|]. split; [vm_compute; discriminate | reflexivity].
 Qed.
 
+
+(* ---- the new-root half, reduced to the builder's side ---- *)
+Section NewRoot.
+Variable H : bytes -> bytes.
+(* the root the second verification of VerifyDiffProof computes from the builder's own proof: a function of the actions,
+   the old list and the appended roots alone *)
+Definition diff_new_acc (acts : list action) (ls ar : list hash) : option (pacc * list hash * bool) :=
+  let n := N.of_nat (length ls) in
+  let idx := sectors_changed acts n in
+  let lh := leaves_at ls idx in
+  match modify_leaves lh acts n ar, modify_ranges idx acts n with
+  | Some nlh, Some nidx => verify_multi_aux H FUEL [] (build_gaps H FUEL ls 0 idx) 0 nidx nlh (n + N.of_nat (length nlh) - N.of_nat (length lh))
+  | _, _ => None
+  end.
+Definition diff_new_root (acts : list action) (ls ar : list hash) : option hash :=
+  match diff_new_acc acts ls ar with Some (acc, _, _) => Some (pa_root H acc) | None => None end.
+
+(* whatever new root VerifyDiffProof accepts (old root the plain root, count held true) is the one root determined by the
+   actions, the old list and the appended roots -- the root the verifier derives from the builder's own proof -- or a
+   collision is exhibited. That this root is the plain root of the list after the actions is the builder-side
+   (completeness) statement, which is tied by correspondence. *)
+Theorem diff_new_determined (acts : list action) (ls th lh : list hash) (newRoot : hash) (ar : list hash) :
+  N.of_nat (length ls) < 2 ^ 64 ->
+  verify_diff_proof H acts (N.of_nat (length ls)) th lh (Rhp.mroot H ls) newRoot ar = Some true ->
+  diff_new_root acts ls ar = Some newRoot \/ NodeCollision H.
+Proof.
+  intros Hn V. destruct (diff_old_sound H acts ls th lh newRoot ar Hn V) as [[El Et]|C]; [left | right; exact C].
+  unfold build_diff_proof in El, Et. cbn [fst snd] in El, Et. fold (leaves_at ls (sectors_changed acts (N.of_nat (length ls)))) in El.
+  unfold verify_diff_proof in V. destruct (negb _); [discriminate|].
+  destruct (verify_multi H (sectors_changed acts (N.of_nat (length ls))) th lh (N.of_nat (length ls)) (Rhp.mroot H ls)) as [[|]|]; try discriminate.
+  unfold diff_new_root, diff_new_acc. cbv zeta. rewrite <- El, <- Et.
+  destruct (modify_leaves lh acts (N.of_nat (length ls)) ar) as [nlh|]; [|discriminate].
+  destruct (modify_ranges (sectors_changed acts (N.of_nat (length ls))) acts (N.of_nat (length ls))) as [nidx|]; [|discriminate].
+  unfold verify_multi in V.
+  destruct (verify_multi_aux H FUEL [] th 0 nidx nlh (N.of_nat (length ls) + N.of_nat (length nlh) - N.of_nat (length lh))) as [[[acc t] sh]|]; [|discriminate].
+  injection V as V. apply andb_true in V. destruct V as [V _]. apply andb_true in V. destruct V as [_ V]. apply hash_eqb_true in V. rewrite V. reflexivity.
+Qed.
+End NewRoot.
